@@ -176,6 +176,10 @@ pub fn lifecycle(trace: &[Value]) -> Vec<Value> {
                     out.push(json!({"ev":"Rx","t":e["t"],"st":st_name(&p["st"]),"close":p["close"],
                         "ctm":p["tm"][2],"itm":p["tm"][1],"pto3":max_pto3(p).max(max_pto3(pre)),
                         "kind":kind,"closes":closes,"authed":authed,"idle":p["idle"],"pidle":pre["idle"],
+                        "onpath":e["src"] == pre["path"]["rem"],
+                        // the first copy of an intact datagram of 1-RTT packets, readable with the keys held
+                        "gen1":e["cls"] == "gen" && e["damaged"] != true && pre["sp"][2]["keys"] == true
+                            && e["pk"].as_array().is_some_and(|a| !a.is_empty() && a.iter().all(|p| p["ty"] == "S")),
                         "id":e["id"]}));
                     last_post = Some(p);
                 }
